@@ -8,6 +8,7 @@ package main
 import (
 	"fmt"
 	"go/ast"
+	"go/constant"
 	"go/token"
 	"go/types"
 	"sort"
@@ -105,6 +106,8 @@ type pstate struct {
 	unroll map[int32]int // next element of literal-list range loops being unrolled
 	loops  []ast.Stmt
 	defers []deferred // calls registered by defer statements, run at the exit of the path
+	// recvWritten: a field of the struct behind the function's pointer receiver was written on this path
+	recvWritten bool
 }
 
 // deferred is one registered deferred call: either the events of a call whose arguments were evaluated at
@@ -132,6 +135,7 @@ func (s *pstate) clone() *pstate {
 	n.events = append([]*Event(nil), s.events...)
 	n.loops = append([]ast.Stmt(nil), s.loops...)
 	n.defers = append([]deferred(nil), s.defers...)
+	n.recvWritten = s.recvWritten
 	n.ev = &evaluator{p: s.ev.p, f: s.ev.f, st: n, busy: map[*types.Var]bool{}, depth: s.ev.depth}
 	return n
 }
@@ -960,6 +964,9 @@ func (p *Prog) assignTo(f *Func, lhs ast.Expr, val *Term, old *Term, st *pstate,
 		nv := withField(cur, sel.Obj().Name(), val)
 		nv.Typ = cur.Typ
 		st.vars[v] = nv
+		if v == f.Recv {
+			st.recvWritten = true
+		}
 		st.emit(&Event{Kind: EvWrite, Node: node, Pos: l.Pos(), Var: v, Struct: namedStruct(sel.Recv()),
 			Field: sel.Obj().Name(), Val: val, Old: oldField, Base: cur})
 	case *ast.IndexExpr:
@@ -1060,6 +1067,17 @@ func (p *Prog) finish(f *Func, st *pstate, rs []*Term, pos token.Pos, out *[]*Pa
 					pa.Out = map[int]*Term{}
 				}
 				pa.Out[i] = t.A[0]
+			}
+		}
+	}
+	// a pointer receiver whose struct was written on this path (out index -1)
+	if f.Recv != nil {
+		if pt, ok := types.Unalias(f.Recv.Type()).(*types.Pointer); ok && namedStruct(pt.Elem()) != "" {
+			if t, written := st.vars[f.Recv]; written && st.recvWritten {
+				if pa.Out == nil {
+					pa.Out = map[int]*Term{}
+				}
+				pa.Out[-1] = t
 			}
 		}
 	}
@@ -1205,6 +1223,10 @@ func (p *Prog) outSummary(g *Func, i int) *Term {
 	if p.pathsBusy[g] || !g.isHandWritten() || g.Body == nil || i >= len(g.Params) {
 		return nil
 	}
+	self := fmt.Sprintf("P%d", i)
+	if i < 0 {
+		self = "Precv"
+	}
 	var common *Term
 	n := 0
 	for _, pa := range p.PathsOf(g) {
@@ -1214,7 +1236,7 @@ func (p *Prog) outSummary(g *Func, i int) *Term {
 		n++
 		t := pa.Out[i]
 		if t == nil {
-			t = atom(fmt.Sprintf("P%d", i))
+			t = atom(self)
 		}
 		if common == nil {
 			common = t
@@ -1222,7 +1244,7 @@ func (p *Prog) outSummary(g *Func, i int) *Term {
 			return nil
 		}
 	}
-	if n == 0 || common == nil || common.IsAt(fmt.Sprintf("P%d", i)) {
+	if n == 0 || common == nil || common.IsAt(self) {
 		return nil
 	}
 	return common
@@ -1428,6 +1450,23 @@ func decideFact(f Fact, facts FactSet) int {
 			}
 		}
 	}
+	// integer comparisons decided by constants, and by a range index being non-negative
+	if t.Op == "<" && len(t.A) == 2 {
+		a, b := stripConv(t.A[0]), stripConv(t.A[1])
+		ca, oka := intConst(a)
+		cb, okb := intConst(b)
+		isIdx := func(x *Term) bool {
+			return (x.Op == "key" && len(x.A) == 1) || (x.Op == "keyfrom" && len(x.A) == 2) || x.Op == "len"
+		}
+		switch {
+		case oka && okb:
+			return res(ca < cb)
+		case isIdx(a) && okb && cb <= 0:
+			return res(false) // index / length < c ≤ 0 never holds
+		case oka && isIdx(b) && ca < 0:
+			return res(true)
+		}
+	}
 	// (nonempty (conv T x)) and (nonempty x) are the same fact
 	if t.Op == "nonempty" {
 		alt := Fact{T: mk("nonempty", stripConv(t.A[0]))}
@@ -1441,6 +1480,25 @@ func decideFact(f Fact, facts FactSet) int {
 		}
 	}
 	return -1
+}
+
+// intConst: the value of an integer literal or integer constant atom.
+func intConst(t *Term) (int64, bool) {
+	if t == nil || t.Op != "" {
+		return 0, false
+	}
+	if k, ok := t.Obj.(*types.Const); ok {
+		if v, exact := constant.Int64Val(constant.ToInt(k.Val())); exact && k.Val().Kind() == constant.Int {
+			return v, true
+		}
+		return 0, false
+	}
+	if strings.HasPrefix(t.At, "#") {
+		if v, err := strconv.ParseInt(t.At[1:], 10, 64); err == nil {
+			return v, true
+		}
+	}
+	return 0, false
 }
 
 // constEq compares two constant atoms when both carry constant values.
